@@ -195,3 +195,187 @@ def describe_served(status: int, hdrs: dict, content: bytes) -> bool:
         return False
     ss = world.read_streams(content)
     return bool(ss and ss[0]["batches"] and world.error_of(ss[0]) is None)
+
+
+# ---------------------------------------------------------------------------------------------------------
+# authenticator compositions (C21 / C24): abstract tree (as emitted by TLC) -> real callables + request headers
+# ---------------------------------------------------------------------------------------------------------
+PROOF_SECRET = b"s" * 32
+PROOF_KID = "k1"
+PROOF_ORIGIN = "worker-1"
+PROOF_LABEL = "edge-proxy"
+STUB_DECL_HEADER = "X-Edge-Client-Cert"
+STUBGATE_DECL_HEADER = "X-Edge-Proof"
+ALICE = None  # set lazily (AuthContext import is at module top, but keep construction in one place)
+
+
+def alice(domain: str = "stub") -> AuthContext:
+    return AuthContext(domain=domain, authenticated=True, principal="alice", claims={"role": "user"})
+
+
+def _raise_for(out: str):
+    from vgi_rpc.http import AuthFailure, AuthReason, AuthUnavailableError, ProofError
+
+    table = {"miss": AuthReason.MISSING_CREDENTIAL, "inv": AuthReason.INVALID_CREDENTIAL,
+             "exp": AuthReason.EXPIRED_CREDENTIAL, "scope": AuthReason.INSUFFICIENT_SCOPE,
+             "proxy": AuthReason.PROXY_REQUIRED, "unauth": AuthReason.UNAUTHORIZED}
+    if out in table:
+        raise AuthFailure(table[out], f"stub says {out}")
+    if out == "ve":
+        raise ValueError("stub: bad credentials")
+    if out == "pe":
+        raise PermissionError("stub: forbidden")
+    if out == "proof":
+        raise ProofError("bad_mac", "stub proof error")
+    if out == "down":
+        raise AuthUnavailableError("identity provider timed out", retry_after=7)
+    if out == "bogus":
+        raise AuthFailure("made_up_reason", "stub with a reason outside the closed set")  # type: ignore[arg-type]
+    raise RuntimeError(f"unknown stub outcome {out!r}")
+
+
+def build_tree(node: dict, ids: list | None = None, *, proof_now=None, replay_cache: bool = True):
+    """abstract node -> real authenticate callable.  Stub leaves / stub gates are driven by request headers
+    X-Out-<id> / X-Gate-<id>; ids are assigned in depth-first order (the same order `tree_headers` uses).
+    Every consultation is appended to LOG as 'auth:<id>:<impl>'."""
+    from vgi_rpc.http import (PreconditionGate, ProofError, ProxyProofConfig, bearer_authenticate_static,
+                              chain_authenticate, declare_proxy_headers, mtls_authenticate_xfcc, proxy_proof_gate,
+                              require_all)
+
+    ids = ids if ids is not None else [0]
+
+    def nid() -> str:
+        ids[0] += 1
+        return f"N{ids[0]}"
+
+    k = node["k"]
+    if k == "leaf":
+        me = nid()
+        impl = node["impl"]
+        if impl == "stub":
+            def stub(req, _me=me):
+                out = req.get_header(f"X-Out-{_me}") or "ve"
+                LOG.append(f"auth:{_me}:stub:{out}")
+                if out == "ok":
+                    return alice()
+                _raise_for(out)
+
+            if node["decl"]:
+                declare_proxy_headers(stub, STUB_DECL_HEADER)
+            return stub
+        if impl == "bearer":
+            inner = bearer_authenticate_static(tokens={f"good-{me}": alice("bearer")})
+        elif impl == "xfcc":
+            inner = mtls_authenticate_xfcc()
+        else:
+            raise RuntimeError(impl)
+
+        def logged(req, _me=me, _inner=inner, _impl=impl):
+            LOG.append(f"auth:{_me}:{_impl}")
+            return _inner(req)
+
+        from vgi_rpc.http._unauthorized import proxy_headers_of
+
+        declared = proxy_headers_of(inner)      # the wrapper must not hide the real authenticator's own declaration
+        if declared:
+            declare_proxy_headers(logged, *declared)
+        return logged
+    if k == "chain":
+        return chain_authenticate(*[build_tree(m, ids, proof_now=proof_now, replay_cache=replay_cache) for m in node["ms"]])
+    if k == "reqall":
+        g = node["gate"]
+        me = nid()
+        if g["impl"] == "stubgate":
+            def gate_fn(req, _me=me):
+                out = req.get_header(f"X-Gate-{_me}") or "fail"
+                LOG.append(f"gate:{_me}:stubgate:{out}")
+                if out == "pass":
+                    return {"verified": "true", "proxy": "stub-edge"}
+                if out == "pe":
+                    raise PermissionError("stub gate says no")
+                raise ProofError("no_proof", "stub gate: proof required")
+
+            gate = PreconditionGate(gate_fn, name="stubgate", claims_key="stubgate",
+                                    proxy_headers=(STUBGATE_DECL_HEADER,) if g["decl"] else ())
+        else:
+            mode = "require" if g["impl"] == "proof_require" else "allow"
+            cfg = ProxyProofConfig(mode=mode, origin_id=PROOF_ORIGIN, secrets={PROOF_KID: (PROOF_SECRET, PROOF_LABEL)},
+                                   skew_seconds=30, enable_replay_cache=replay_cache)
+            real = proxy_proof_gate(cfg, now=proof_now)
+
+            def gate_fn(req, _me=me, _real=real, _mode=mode):
+                LOG.append(f"gate:{_me}:proof_{_mode}")
+                return _real(req)
+
+            gate = PreconditionGate(gate_fn, name=real.name, claims_key=real.claims_key,
+                                    proxy_headers=real.vgi_proxy_headers)
+        inner = None if node["inner"]["k"] == "none" else build_tree(node["inner"], ids, proof_now=proof_now,
+                                                                     replay_cache=replay_cache)
+        return require_all(gate, inner)
+    raise RuntimeError(k)
+
+
+def tree_headers(node: dict, rng, ids: list | None = None, *, now: int | None = None) -> dict:
+    """Request headers that make every node of the composition behave as its `out` says."""
+    from vgi_rpc.http import mint_proof
+
+    ids = ids if ids is not None else [0]
+    h: dict = {}
+
+    def nid() -> str:
+        ids[0] += 1
+        return f"N{ids[0]}"
+
+    k = node["k"]
+    if k == "leaf":
+        me = nid()
+        impl, out = node["impl"], node["out"]
+        if impl == "stub":
+            h[f"X-Out-{me}"] = out
+        elif impl == "bearer":
+            if out == "ok":
+                h["Authorization"] = f"Bearer good-{me}"
+            elif out == "inv":
+                h["Authorization"] = rng.choice(["Bearer wrong", "Basic Z29vZA==", f"bearer good-{me}", f"Bearer good-{me}x", f"Bearer  good-{me}"])
+        elif impl == "xfcc":
+            if out == "ok":
+                h["x-forwarded-client-cert"] = 'Hash=abc;Subject="CN=alice,O=org"'
+            elif out == "inv":
+                h["x-forwarded-client-cert"] = ","
+    elif k == "chain":
+        for m in node["ms"]:
+            h.update(tree_headers(m, rng, ids, now=now))
+    elif k == "reqall":
+        g = node["gate"]
+        me = nid()
+        if g["impl"] == "stubgate":
+            h[f"X-Gate-{me}"] = g["out"]
+        else:
+            good = mint_proof(PROOF_SECRET, PROOF_KID, PROOF_ORIGIN, now=now)
+            if g["out"] == "pass":
+                h["VGI-Proxy-Proof"] = good
+            elif g["out"] in ("fail", "unproven"):
+                flavour = rng.choice(["absent", "malformed", "badmac", "unknown_kid", "expired"])
+                if flavour == "malformed":
+                    h["VGI-Proxy-Proof"] = good.rsplit(".", 1)[0]
+                elif flavour == "badmac":
+                    h["VGI-Proxy-Proof"] = mint_proof(b"x" * 32, PROOF_KID, PROOF_ORIGIN, now=now)
+                elif flavour == "unknown_kid":
+                    h["VGI-Proxy-Proof"] = mint_proof(PROOF_SECRET, "other", PROOF_ORIGIN, now=now)
+                elif flavour == "expired":
+                    import time as _t
+
+                    h["VGI-Proxy-Proof"] = mint_proof(PROOF_SECRET, PROOF_KID, PROOF_ORIGIN,
+                                                      now=(int(_t.time()) if now is None else now) - 3600)
+        if node["inner"]["k"] != "none":
+            h.update(tree_headers(node["inner"], rng, ids, now=now))
+    return h
+
+
+def strip_outs(node):
+    """service identity of a composition = the tree without the per-request outcomes"""
+    if isinstance(node, dict):
+        return {k: strip_outs(v) for k, v in node.items() if k != "out"}
+    if isinstance(node, list):
+        return [strip_outs(x) for x in node]
+    return node
